@@ -190,6 +190,52 @@ fn systematic(env: &Env, rep: &mut Report, t: &mut Trace, lay: &Layouts, shard: 
     }
 }
 
+/// corpus of minimised past failures (DESIGN §6): always run first.  Script alphabet: a typeable character types
+/// it (passing the current selection), `⌫` backspace, `⏎ ¹ ² ³` commit index 0–3, `␛` finish, `⏏` keypad Enter.
+const CORPUS: &[(&str, &str, &str, &str)] = &[
+    ("F1-keypad-enter", "phonetic", "01000000001", "a⏏m⏏"),
+    ("F2-reph-on-empty", "s2", "00000010000", "z␛kz␛"),
+    ("F3-empty-learned-value", "phonetic", "01000000001", ":)¹:er␛:e␛"),
+    ("F3b-empty-learned-base-suffix", "phonetic", "01000000001", ":)¹:ke␛:ra␛:gulo␛"),
+    ("F6-typed-leak", "probhat", "10100000000", "k/i⌫⌫m␛"),
+    ("F8-backslash-english", "phonetic", "11000000000", "\\␛%\\␛"),
+    ("F9-two-learned-bases", "phonetic", "01000000000", "kor¹kore¹korei␛"),
+    ("F18-zwnj-emoji-name", "probhat", "00100100000", "fUl␛"),
+    ("seed-C01-1-pending-kar-recursion", "probhat", "00110000100", "k[a␛[a␛"),
+    ("seed-C03-1-punctuation-after-word", "phonetic", "00000000001", "k⏎.␛(a⌫␛"),
+    ("seed-C06-1-hasanta-vowel-then-backspace", "probhat", "10110000000", "/u⌫;)␛/u⌫k␛"),
+];
+
+fn run_corpus(env: &Env, rep: &mut Report, t: &mut Trace, lay: &Layouts) {
+    for (name, layout, bits, script) in CORPUS {
+        let lp = match *layout { "phonetic" => PHONETIC.to_string(), "s2" => lay.s2.clone(), "s1" => lay.s1.clone(), _ => lay.probhat.clone() };
+        let mut b = 0u32; for (i, c) in bits.chars().enumerate() { if c == '1' { b |= 1 << i; } }
+        let opts = Opts::from_bits(b);
+        let case = format!("c01-corpus-{}", name);
+        t.line(&format!("case {}", case));
+        let xdg = env.fresh_xdg(&case);
+        let mut s = match Sess::new(t, &env.data, "c", &lp, opts, &xdg) { Some(s) => s, None => { rep.violation("C01", "panic", format!("corpus {}: context construction panicked", name), json!({"corpus": name})); continue; } };
+        let phon = lp == PHONETIC;
+        for ch in script.chars() {
+            let ctx = json!({"stream": "c01", "corpus": name, "layout": lp, "opts": opts.bits_str(), "script": script, "events": s.events});
+            let o = match ch {
+                '⌫' => s.backspace(t, false),
+                '␛' => s.finish(t),
+                '⏏' => s.key(t, 3612, 0, 0),
+                '⏎' | '¹' | '²' | '³' => { let i = match ch { '⏎' => 0, '¹' => 1, '²' => 2, _ => 3 };
+                    let n = match &s.last { Obs::Full { cands, .. } => cands.len(), Obs::Single { text, .. } => if text.is_empty() { 0 } else { 1 }, _ => 0 };
+                    if i < n { s.commit(t, i) } else { s.finish(t) } }
+                c => match code_for_char(c) { Some(k) => { let sel = match &s.last { Obs::Full { sel, cands, .. } if *sel < cands.len() => *sel as u8, _ => 0 }; s.key(t, k, 0, sel) } None => continue },
+            };
+            let on = s.imp.ongoing();
+            if o == Obs::Panic { rep.violation("C01", "panic", format!("corpus {}: panic at {:?} of {:?}", name, ch, script), ctx); break; }
+            check_obs(rep, &ctx, phon, None, &o, on, true, None);
+        }
+        rep.eval(Some(&case));
+        rep.count("corpus-case");
+    }
+}
+
 pub fn run(env: &Env) -> Report {
     let lay = mk_layouts(env);
     let nshards = 16;
@@ -200,6 +246,7 @@ pub fn run(env: &Env) -> Report {
         let mut t = env.trace(&format!("c01.{}", si));
         register_layouts(&mut t, env, &lay);
         let mut rng = Rng::new(seed.wrapping_mul(7919) ^ (si as u64) << 20);
+        if si == 0 { run_corpus(env, &mut rep, &mut t, &lay); }
         for h in 0..nhist {
             let l = if h % 10 == 9 { hlen * 4 } else { hlen };
             history(env, &mut rep, &mut t, &lay, &mut rng, &format!("c01-{}-{}", si, h), l);
